@@ -18,7 +18,7 @@ from harness.core import q, z, coq_list, coq_bool, coq_opt, coq_str
 PID = "C12"
 GEN_GROUPS = ["C12Shape"]
 TARGETS = ["coq/Props/C12.vo", "coq/Model/Network.vo", "coq/Model/Current.vo"]
-CASES = {"quick": 300, "thorough": 6000}
+CASES = {"quick": 260, "thorough": 6000}
 CORR_HEADER = ("From Coq Require Import ZArith QArith List String.\n"
                "From ACN Require Import Base.Num Model.Current Model.Network.\nImport ListNotations.\n"
                "Open Scope string_scope.\nOpen Scope Q_scope.\n")
@@ -27,15 +27,24 @@ SHARD = 100
 F = fractions.Fraction
 
 RULE = ("one case = one ChargingNetwork driven through <= 30 operations (register_evse in random order incl. re-registration, "
-        "add/remove/update_constraint with explicit / default / colliding names, Currents from random expression trees over "
+        "add/remove/update_constraint with explicit / default / colliding / empty names, Currents from random expression trees over "
         "all constructor forms, +, -, k*a, a*k, Series operands and the in-place spellings), snapshots (station list, "
-        "voltages, matrix or None, constraints_as_df, limits, names) after every failing operation and at random points, "
-        "constraint_current (linear=True, and the default phase-aware form with cos/sin of the registered angles computed by the "
-        "harness) on random name subsets (shuffled, duplicated, unknown names) and time indices "
-        "(negative, repeated, empty, out of range); malformed stream: unknown station in a Current, removing/updating a "
-        "missing name, registering after constraints exist (also after all were removed), query before the first "
-        "constraint, wrong schedule height.  A second stream evaluates expression trees alone (index order and values). "
-        "distinct = distinct operation sequence; non-trivial = at least one constraint accepted")
+        "voltages, matrix or None, constraints_as_df, limits, names, Interface.get_constraints) after every failing operation and at "
+        "random points, constraint_current (linear=True, and the default phase-aware form with cos/sin of the registered angles "
+        "computed by the harness) on random name subsets (shuffled, duplicated, unknown names) and time indices (negative, repeated, "
+        "non-consecutive with consecutive end points, empty, out of range); malformed stream: unknown station in a Current, "
+        "removing/updating a missing name, registering after constraints exist (also after all were removed), query before the "
+        "first constraint, wrong schedule height.  Scenario families (fractions of the same budget): JSON round trip "
+        "(to_json/from_json) mid-registration, mid-run and after all constraints were removed, operations continue on the reloaded "
+        "object; station ids whose string order differs from registration order (S-9/S-10/S-11, mixed case, numeric-looking, '' and "
+        "'0') and constraint names '' / '0'; the SAME Current object reused for several constraints and on a second network, and "
+        "changed in place by the caller between uses; two networks of the same shape driven alternately, sharing EVSE and Current "
+        "objects; every argument compared before/after the call, every returned object (frame, arrays, lists, Interface copies) "
+        "scribbled on, results kept by the caller re-read at the end; schedule / time indices / constraint ids / limit passed as "
+        "list, tuple, set, ndarray, numpy scalars, ints; is_feasible (linear and default) and analysis.constraint_currents compared "
+        "with the same book-keeping; the first sequences are re-run in a second process with another PYTHONHASHSEED.  A second "
+        "stream evaluates expression trees alone (index order and values).  distinct = distinct operation sequence; "
+        "non-trivial = at least one constraint accepted")
 ASSUMPTIONS = [
     "coefficients, limits and schedules are finite floats (no NaN/inf given as input); Currents built from a dict / Series have a unique index",
     "pandas > '1.4.0' in the string comparison of add_constraint (the concat branch); asserted by the harness on every run",
@@ -48,13 +57,14 @@ ASSUMPTIONS = [
 ]
 TRUSTED_EXTRA = ["harness/c12.py: Ref (independent exact book-keeping used by the monitor), station-name -> rank encoding, NaN -> None encoding"]
 
-STATION_POOL = ["CA-303", "CA-148", "AB-01", "AB-1", "PS-001", "PS-010", "PS-002", "ca-9", "AV-22", "BC-7", "Z9", "A", "b0", "CC-3"]
+STATION_POOL = ["CA-303", "CA-148", "AB-01", "AB-1", "PS-001", "PS-010", "PS-002", "ca-9", "AV-22", "BC-7", "Z9", "A", "b0", "CC-3",
+                "S-9", "S-10", "S-11", "s-10", "10", "9", "", "0"]
 RANK = {s: i for i, s in enumerate(sorted(STATION_POOL))}
 BY_RANK = {i: s for s, i in RANK.items()}
-NAME_POOL = ["Primary A", "Secondary B", "pod", "_const_0", "_const_1", "_const_2", "_const_1_v2", "pod_v2", "t1", "t1_v2", "x"]
+NAME_POOL = ["Primary A", "Secondary B", "pod", "_const_0", "_const_1", "_const_2", "_const_1_v2", "pod_v2", "t1", "t1_v2", "x", "", "0", "S-10"]
 COEFFS = [1, 1, -1, 0.5, 2, 0.25, -0.5, 3, 1.5, 0, 0.1, -2.0, 0.75, 1 / 3, 1.0]
 SCALARS = [2, -1, 0.5, 3, 0, -0.25, 1.5, 1, 2.0, -1.0, 0.1]
-LIMITS = [10, 32.5, 100.0, 0, 64, 80.0, 416.67, 180, 1e-3, 54.0]
+LIMITS = [10, 32.5, 100.0, 0, 64, 80.0, 416.67, 180, 1e-3, 54.0, -3, 0.0, 1e6]
 VOLTS = [208, 240, 277, 120, 415.5]
 ANGLES = [30, -30, 150, -90, 90, -150, 0]
 
@@ -259,78 +269,222 @@ def mat_list(a):
     return [[num_or_none(v) for v in row] for row in a.tolist()] if a.shape[1] else [[] for _ in range(a.shape[0])]
 
 
+def split(o):
+    """an operation may carry a trailing dict of harness-only options:
+       net (0/1: which of two interleaved networks), store / use (slot of a Current OBJECT that is kept and reused),
+       xtype / ttype / ctype / ltype (how schedule, time indices, constraint ids and the limit are passed)"""
+    if o and isinstance(o[-1], dict):
+        return list(o[:-1]), o[-1]
+    return list(o), {}
+
+
 def snapshot(net):
-    df = net.constraints_as_df()
-    return dict(
+    base = dict(
         stations=list(net.station_ids),
         volts=[float(v) for v in net._voltages.tolist()],
         angles=[float(v) for v in net._phase_angles.tolist()],
-        mat=None if net.constraint_matrix is None else mat_list(net.constraint_matrix),
-        df_cols=[str(c) for c in df.columns], df_idx=[str(i) for i in df.index], df_vals=mat_list(df.to_numpy()),
         mags=[float(v) for v in net.magnitudes.tolist()], names=list(net.constraint_index))
+    cm = net.constraint_matrix
+    if cm is not None and getattr(cm, "ndim", 2) != 2:
+        # a row-less matrix that lost its second dimension (JSON round trip)
+        err = None
+        try:
+            net.constraints_as_df()
+        except Exception as e:  # noqa
+            err = type(e).__name__
+        return dict(kind="snapdeg", df_err=err, shape=list(cm.shape), **base)
+    df = net.constraints_as_df()
+    out = dict(kind="snap", mat=None if cm is None else mat_list(cm),
+               df_cols=[str(c) for c in df.columns], df_idx=[str(i) for i in df.index], df_vals=mat_list(df.to_numpy()),
+               **base)
+    # other public entry points that report the same quantities (Interface) — and what they hand out are copies
+    try:
+        import types
+        from acnportal.acnsim.interface import Interface
+        itf = Interface(types.SimpleNamespace(network=net))
+        gc = itf.get_constraints()
+        out["iface"] = dict(mat=mat_list(gc.constraint_matrix), mags=[float(v) for v in gc.magnitudes],
+                            names=list(gc.constraint_index), stations=list(gc.evse_index))
+        if gc.constraint_matrix.size:
+            gc.constraint_matrix[:] = 77
+        if len(gc.magnitudes):
+            gc.magnitudes[:] = 77
+        gc.constraint_index.append("poked")
+        gc.evse_index.append("poked")
+    except Exception as e:  # noqa
+        out["iface"] = dict(err=type(e).__name__ + ": " + str(e)[:80])
+    # the caller scribbles on everything that was handed out
+    try:
+        if df.size:
+            df.iloc[:, :] = 77
+        df.loc["poked"] = 1
+    except Exception:  # noqa
+        pass
+    net.station_ids.append("poked")
+    return out
+
+
+def as_arg(kind, value, np):
+    """pass the same values in another container / dtype"""
+    if value is None:
+        return None
+    if kind == "tuple":
+        return tuple(value)
+    if kind == "ndarray":
+        return np.array(value, dtype=int)
+    if kind == "npint":
+        return [np.int64(v) for v in value]
+    if kind == "set":
+        return set(value)
+    return list(value)
+
+
+def sched_arg(kind, rows, w, np):
+    X = np.array(rows, dtype=float).reshape(len(rows), w)
+    if kind == "list":
+        return X.tolist() if (len(rows) and w) else X
+    if kind == "int" and all(float(v).is_integer() for r in rows for v in r):
+        return X.astype(int)
+    return X
+
+
+def limit_arg(kind, v, np):
+    if kind == "np":
+        return np.float64(v)
+    if kind == "int" and float(v).is_integer():
+        return int(v)
+    return v
+
+
+def same(a, b, np):
+    try:
+        if isinstance(a, np.ndarray) or isinstance(b, np.ndarray):
+            return np.array_equal(np.asarray(a), np.asarray(b))
+        return a == b and type(a) is type(b)
+    except Exception:  # noqa
+        return False
 
 
 def run_impl(ops):
-    """ops: list of json-able operations; returns the list of observations (same length)"""
+    """ops: list of json-able operations; returns the list of observations (same length).
+    Up to two networks live side by side (option `net`); they share the EVSE objects and the stored Current
+    objects.  Every argument is checked to be left untouched by the call, every returned object is scribbled on."""
+    import copy
+    import types
     np, pd, ChargingNetwork, Current, EVSE = _imports()
+    from acnportal.acnsim import analysis
     assert pd.__version__ > "1.4.0", "model covers the concat branch of add_constraint only"
-    net = ChargingNetwork()
+    nets = {}
+    evses, slots, held = {}, {}, []
     out = []
+
+    def get_net(tag):
+        if tag not in nets:
+            nets[tag] = ChargingNetwork()
+        return nets[tag]
+
+    def current_for(expr, opts):
+        if "use" in opts and opts["use"] in slots:
+            c = slots[opts["use"]]
+        else:
+            c = build(expr)
+        if "store" in opts:
+            slots[opts["store"]] = c
+        return c
+
     for o in ops:
+        o, opts = split(o)
         k = o[0]
-        if k == "snap":
-            try:
-                out.append(dict(kind="snap", **snapshot(net)))
-            except Exception as e:  # noqa
-                out.append(dict(kind="query", err="snapshot:" + type(e).__name__))
+        tag = opts.get("net", 0)
+        net = get_net(tag)
+        if k == "mutate":
+            # the caller changes a Current object it passed earlier (true in-place pandas path: no __imul__)
+            if o[1] in slots:
+                slots[o[1]] *= o[2]
+            out.append(dict(kind="noop"))
             continue
-        if k == "query":
-            _, rows, w, C, T = o
-            X = np.array(rows, dtype=float).reshape(len(rows), w)
-            ob = dict(kind="query", err=None, val=None, full=None)
+        if k in ("snap", "json"):
             try:
-                ob["val"] = mat_list(net.constraint_current(X, constraints=C, time_indices=T, linear=True))
+                if k == "json":
+                    nets[tag] = net = ChargingNetwork.from_json(net.to_json())
+                out.append(snapshot(net))
+            except Exception as e:  # noqa
+                out.append(dict(kind="query", err="snapshot:" + type(e).__name__ + ":" + str(e)[:60]))
+            continue
+        if k in ("query", "queryp"):
+            _, rows, w, C, T = o
+            lin = k == "query"
+            X = sched_arg(opts.get("xtype"), rows, w, np)
+            Ca, Ta = as_arg(opts.get("ctype"), C, np), as_arg(opts.get("ttype"), T, np)
+            before = (copy.deepcopy(X), copy.deepcopy(Ca), copy.deepcopy(Ta))
+            ob = dict(kind=k, err=None, val=None, full=None, re=None, im=None, full_re=None, full_im=None)
+            try:
+                r = np.asarray(net.constraint_current(X, constraints=Ca, time_indices=Ta, linear=lin))
+                if lin:
+                    ob["val"] = mat_list(r)
+                else:
+                    ob["re"], ob["im"] = mat_list(r.real), mat_list(r.imag)
+                if opts.get("hold"):
+                    held.append((len(out), r, r.copy()))
+                    try:   # the same request for another schedule: must not touch what was handed out before
+                        net.constraint_current(np.asarray(X, dtype=float) + 1.0, constraints=Ca, time_indices=Ta, linear=lin)
+                    except Exception:  # noqa
+                        pass
+                elif r.size:
+                    r[:] = 0
             except Exception as e:  # noqa
                 ob["err"] = type(e).__name__
+            if not (same(before[0], X, np) and same(before[1], Ca, np) and same(before[2], Ta, np)):
+                ob["args_changed"] = "constraint_current changed an argument (schedule / constraints / time_indices)"
             try:
-                ob["full"] = mat_list(net.constraint_current(X, linear=True))
-            except Exception as e:  # noqa
-                ob["full"] = None
-            out.append(ob)
-            continue
-        if k == "queryp":
-            _, rows, w, C, T = o
-            X = np.array(rows, dtype=float).reshape(len(rows), w)
-            ob = dict(kind="queryp", err=None, re=None, im=None, full_re=None, full_im=None)
-            try:
-                r = np.asarray(net.constraint_current(X, constraints=C, time_indices=T))
-                ob["re"], ob["im"] = mat_list(r.real), mat_list(r.imag)
-            except Exception as e:  # noqa
-                ob["err"] = type(e).__name__
-            try:
-                r = np.asarray(net.constraint_current(X))
-                ob["full_re"], ob["full_im"] = mat_list(r.real), mat_list(r.imag)
+                r = np.asarray(net.constraint_current(X, linear=lin))
+                if lin:
+                    ob["full"] = mat_list(r)
+                else:
+                    ob["full_re"], ob["full_im"] = mat_list(r.real), mat_list(r.imag)
             except Exception as e:  # noqa
                 pass
+            # the same quantity through the other public entry points
+            if T is None and net.constraint_matrix is not None and getattr(net.constraint_matrix, "ndim", 2) == 2:
+                try:
+                    Xf = np.asarray(X, dtype=float)
+                    ob["feas"] = [bool(net.is_feasible(Xf, linear=True)), bool(net.is_feasible(Xf))]
+                except Exception as e:  # noqa
+                    ob["feas"] = "err:" + type(e).__name__
+                if not lin:
+                    try:
+                        sim = types.SimpleNamespace(network=net, charging_rates=np.asarray(X, dtype=float))
+                        d = analysis.constraint_currents(sim, return_magnitudes=True,
+                                                         constraint_ids=None if C is None else list(C))
+                        ob["analysis"] = [[str(nm), [num_or_none(v.real) for v in row], [num_or_none(v.imag) for v in row]]
+                                          for nm, row in d.items()]
+                    except Exception as e:  # noqa
+                        ob["analysis"] = "err:" + type(e).__name__
             out.append(ob)
             continue
         ob = dict(kind="step", err=None, cur=None)
         try:
             if k == "register":
-                net.register_evse(EVSE(o[1]), o[2], o[3])
-            elif k == "add":
-                c = build(o[1])
+                if o[1] not in evses:
+                    evses[o[1]] = EVSE(o[1])
+                net.register_evse(evses[o[1]], o[2], o[3])
+            elif k in ("add", "update"):
+                expr = o[1] if k == "add" else o[2]
+                c = current_for(expr, opts)
                 ob["cur"] = cur_items(c)
-                net.add_constraint(c, o[2], name=o[3]) if o[3] is not None else net.add_constraint(c, o[2])
+                limit = limit_arg(opts.get("ltype"), o[2] if k == "add" else o[3], np)
+                try:
+                    if k == "add":
+                        net.add_constraint(c, limit, name=o[3]) if o[3] is not None else net.add_constraint(c, limit)
+                    elif o[4] is None:
+                        net.update_constraint(o[1], c, limit)
+                    else:
+                        net.update_constraint(o[1], c, limit, new_name=o[4])
+                finally:
+                    if cur_items(c) != ob["cur"] and not (ob["cur"] != ob["cur"]):
+                        ob["args_changed"] = "%s_constraint changed the Current it was given" % k
             elif k == "remove":
                 net.remove_constraint(o[1])
-            elif k == "update":
-                c = build(o[2])
-                ob["cur"] = cur_items(c)
-                if o[4] is None:
-                    net.update_constraint(o[1], c, o[3])
-                else:
-                    net.update_constraint(o[1], c, o[3], new_name=o[4])
             else:
                 raise ValueError(k)
         except Exception as e:  # noqa
@@ -338,6 +492,14 @@ def run_impl(ops):
         ob["names"] = list(net.constraint_index)
         ob["mags"] = [float(v) for v in net.magnitudes.tolist()]
         out.append(ob)
+    # results that were handed out earlier and kept by the caller must still read the same
+    for idx, live, cp in held:
+        try:
+            unchanged = np.array_equal(live, cp, equal_nan=True)
+        except TypeError:
+            unchanged = live.shape == cp.shape and repr(live.tolist()) == repr(cp.tolist())
+        if not unchanged:
+            out[idx]["held_changed"] = "an aggregate-current array returned earlier changed while the caller kept it"
     return out
 
 
@@ -353,9 +515,12 @@ def qmat(m):
 
 
 def op_coq(o, trig=()):
+    o, _ = split(o)
     k = o[0]
     if k == "snap":
         return "CSnap"
+    if k == "json":
+        return "CJson"
     if k in ("query", "queryp"):
         _, rows, w, C, T = o
         body = "(mkSched %d%%nat %s) %s %s" % (
@@ -385,6 +550,10 @@ def obs_coq(b):
             st_list(b["stations"]), coq_list([q(v) for v in b["volts"]]), coq_list([q(v) for v in b["angles"]]),
             coq_opt(b["mat"], qmat), st_list(b["df_cols"]), coq_list([coq_str(x) for x in b["df_idx"]]),
             qmat(b["df_vals"]), coq_list([q(v) for v in b["mags"]]), coq_list([coq_str(x) for x in b["names"]]))
+    if b["kind"] == "snapdeg":
+        return "(BSnapDeg %s %s %s %s %s %s)" % (
+            st_list(b["stations"]), coq_list([q(v) for v in b["volts"]]), coq_list([q(v) for v in b["angles"]]),
+            coq_opt(b["df_err"], coq_str), coq_list([q(v) for v in b["mags"]]), coq_list([coq_str(x) for x in b["names"]]))
     if b["kind"] == "queryp":
         if b["err"] is not None:
             return "(BQueryP (Err %s))" % coq_str(b["err"])
@@ -398,6 +567,7 @@ def trig_lists(ops, obs):
     """for every op: (cos, sin) of the angle of every registered station (last registration), in station order"""
     order, angle, out = [], {}, []
     for o, b in zip(ops, obs):
+        o, _ = split(o)
         if o[0] == "register" and b.get("err") is None:
             if o[1] not in angle:
                 order.append(o[1])
@@ -406,10 +576,44 @@ def trig_lists(ops, obs):
     return out
 
 
+def project(ops, obs, tag):
+    """the operations (and what was observed) of ONE of the interleaved networks; `mutate` steps touch no network"""
+    po, pb = [], []
+    for o, b in zip(ops, obs):
+        oo, opts = split(o)
+        if oo[0] == "mutate" or opts.get("net", 0) != tag:
+            continue
+        po.append(o)
+        pb.append(b)
+    return po, pb
+
+
+_LOSSY = []
+
+
+def json_lossy():
+    """probe: does a network whose constraints were all removed come back from a JSON round trip with a matrix of
+    shape (0,) instead of (0, n)?"""
+    if not _LOSSY:
+        np, pd, ChargingNetwork, Current, EVSE = _imports()
+        n = ChargingNetwork()
+        n.register_evse(EVSE("a"), 208, 0)
+        n.register_evse(EVSE("b"), 208, 0)
+        n.add_constraint(Current("a"), 1, name="x")
+        n.remove_constraint("x")
+        try:
+            m = ChargingNetwork.from_json(n.to_json())
+            _LOSSY.append(getattr(m.constraint_matrix, "ndim", 2) != 2)
+        except Exception:  # noqa
+            _LOSSY.append(False)
+    return _LOSSY[0]
+
+
 def case_coq(mode, ops, obs):
     trigs = trig_lists(ops, obs)
-    return "{| k_mode := %s; k_ops := %s;\n   k_obs := %s |}" % (
-        mode, coq_list([op_coq(o, t) for o, t in zip(ops, trigs)]), coq_list([obs_coq(b) for b in obs]))
+    return "{| k_mode := %s; k_lossy := %s; k_ops := %s;\n   k_obs := %s |}" % (
+        mode, coq_bool(json_lossy()), coq_list([op_coq(o, t) for o, t in zip(ops, trigs)]),
+        coq_list([obs_coq(b) for b in obs]))
 
 
 # ---------------------------------------------------------------------------------------------
@@ -439,26 +643,47 @@ def rand_query(rng, nst, names):
     if rng.random() < 0.7:
         lo, hi = -w, w - 1
         T = [rng.randint(lo, hi) for _ in range(rng.randint(0, 5))] if w else []
+        if T and rng.random() < 0.25:
+            # same end points and length as a consecutive run, but repeated / out of order
+            a = rng.randint(0, max(0, w - 1))
+            T = rng.choice([[a, a], [a, a, min(w - 1, a + 2)], [0, min(w - 1, 2), min(w - 1, 1), w - 1]])
         if rng.random() < 0.08:
             T.append(rng.choice([w, -w - 1, w + 3]))
             rng.shuffle(T)
-    return ["queryp" if rng.random() < 0.35 else "query", rows, w, C, T]
+    opts = {}
+    if rng.random() < 0.3:
+        opts["xtype"] = rng.choice(["list", "int"])
+    if T is not None and rng.random() < 0.3:
+        opts["ttype"] = rng.choice(["tuple", "ndarray", "npint"])
+    if C is not None and rng.random() < 0.3:
+        opts["ctype"] = rng.choice(["tuple", "set"])
+    if rng.random() < 0.3:
+        opts["hold"] = True
+    q_ = ["queryp" if rng.random() < 0.35 else "query", rows, w, C, T]
+    return q_ + [opts] if opts else q_
 
 
-def gen_ops(rng):
-    nst = rng.randint(2, 8)
-    pool = rng.sample(STATION_POOL, min(len(STATION_POOL), nst + 2))
+def gen_ops_iter(rng, slots, pool=None):
+    """yields batches of operations for ONE network.  `slots` (slot -> expression tree of the stored Current object)
+    is shared by all networks of a case: a Current object built for one constraint is reused for others, on either
+    network, and is changed in place by the caller between uses."""
+    nst = 1 if rng.random() < 0.04 else rng.randint(2, 8)
+    if pool is None:
+        pool = rng.sample(STATION_POOL, min(len(STATION_POOL), nst + 2))
+    else:
+        nst = len(pool) - 2
     reg, unknown = pool[:nst], pool[nst:]
-    ops = []
     names = []          # names the generator believes are live (only to aim the operations)
     budget = rng.randint(8, 30)
+    done = 0
+    jsonp = rng.choice([0.0, 0.0, 0.05, 0.12])
     # registration phase: random order; now and then the same station twice, or an early add attempt
     order = list(reg)
     rng.shuffle(order)
     registered = []
     early = rng.random()
     for s in order:
-        ops.append(["register", s, rng.choice(VOLTS), rng.choice(ANGLES)])
+        ops = [["register", s, rng.choice(VOLTS), rng.choice(ANGLES)]]
         registered.append(s)
         if rng.random() < 0.06:
             ops.append(["register", rng.choice(registered), rng.choice(VOLTS), rng.choice(ANGLES)])
@@ -469,10 +694,17 @@ def gen_ops(rng):
             ops.append(["snap"])
         if early > 0.95 and rng.random() < 0.3:
             ops.append(rand_query(rng, len(set(registered)), []))
+        if rng.random() < jsonp:
+            ops.append(["json"])
+        done += 1
+        yield ops
+    ops = []
     if rng.random() < 0.1:
         ops.append(["snap"])
     if rng.random() < 0.04:
         ops.append(["remove", rng.choice(NAME_POOL)])
+    if ops:
+        yield ops
     sts_ok = list(reg)
 
     def expr(bad=False):
@@ -484,7 +716,25 @@ def gen_ops(rng):
             e = [rng.choice(["add", "sub"]), e, wrap] if rng.random() < 0.7 else ["add", wrap, e]
         return e
 
-    while len([o for o in ops if o[0] not in ("snap", "query", "queryp")]) < budget:
+    def current_opts(e):
+        """reuse a stored Current object / store this one; returns (expression the object denotes, options)"""
+        opts = {}
+        t = rng.random()
+        usable = [k for k, tr in slots.items() if all(st in sts_ok for st in algebra(tr))]
+        if t < 0.18 and usable:
+            k = rng.choice(usable)
+            opts["use"] = k
+            e = slots[k]
+        elif t < 0.40:
+            k = "c%d" % len(slots)
+            opts["store"] = k
+            slots[k] = e
+        if rng.random() < 0.25:
+            opts["ltype"] = rng.choice(["np", "int"])
+        return e, opts
+
+    while done < budget:
+        ops = []
         t = rng.random()
         bad = False
         if t < 0.42:
@@ -492,7 +742,9 @@ def gen_ops(rng):
             if names and rng.random() < 0.15:
                 nm = rng.choice(names)
             bad = rng.random() < 0.07
-            ops.append(["add", expr(bad), rng.choice(LIMITS), nm])
+            e, opts = current_opts(expr(bad))
+            bad = bad or any(st not in sts_ok for st in algebra(e))
+            ops.append(["add", e, rng.choice(LIMITS), nm] + ([opts] if opts else []))
             if not bad:
                 names.append(nm if nm is not None else "_const_%d" % len(names))
         elif t < 0.62:
@@ -509,7 +761,9 @@ def gen_ops(rng):
                 nm, bad = rng.choice(NAME_POOL), True
             nn = None if rng.random() < 0.5 else rng.choice(NAME_POOL + names)
             badc = rng.random() < 0.08
-            ops.append(["update", nm, expr(badc), rng.choice(LIMITS), nn])
+            e, opts = current_opts(expr(badc))
+            badc = badc or any(st not in sts_ok for st in algebra(e))
+            ops.append(["update", nm, e, rng.choice(LIMITS), nn] + ([opts] if opts else []))
             bad = bad or badc
             if nm in names:
                 names.remove(nm)
@@ -525,40 +779,151 @@ def gen_ops(rng):
                 ops.append(["remove", nm])
             names = names[6:]
             ops.append(["snap"])
+            if rng.random() < 0.2:
+                ops.append(["json"])
             ops.append(["register", rng.choice(unknown + reg), rng.choice(VOLTS), rng.choice(ANGLES)])
             bad = True
+        if slots and rng.random() < 0.12:
+            # the caller changes, in place, a Current object it handed to a network earlier
+            k = rng.choice(sorted(slots))
+            sc = rng.choice(SCALARS)
+            ops.append(["mutate", k, sc])
+            slots[k] = ["imul", slots[k], sc]
         if bad or rng.random() < 0.12:
             ops.append(["snap"])
+        if rng.random() < jsonp:
+            ops.append(["json"])
         if rng.random() < 0.22:
             ops.append(rand_query(rng, len(reg), names))
-    ops.append(["snap"])
-    ops.append(rand_query(rng, len(reg), names))
+        done += 1
+        yield ops
+    yield [["snap"], rand_query(rng, len(reg), names)]
+
+
+def gen_ops(rng):
+    return [o for batch in gen_ops_iter(rng, {}) for o in batch]
+
+
+def gen_ops2(rng):
+    """two networks of the same shape (same stations, other registration order, other values) driven alternately;
+    they share the EVSE objects and the stored Current objects"""
+    nst = rng.randint(2, 5)
+    pool = rng.sample(STATION_POOL, nst + 2)
+    slots = {}
+    its = [gen_ops_iter(rng, slots, list(pool)), gen_ops_iter(rng, slots, list(pool))]
+    alive = [0, 1]
+    ops = []
+    while alive:
+        tag = rng.choice(alive)
+        try:
+            batch = next(its[tag])
+        except StopIteration:
+            alive.remove(tag)
+            continue
+        for o in batch:
+            oo, opts = split(o)
+            if tag:
+                opts = dict(opts, net=1)
+            ops.append(oo + ([opts] if opts else []))
     return ops
 
 
-def make_case(ops, mode=None, shrink_ok=False):
+KNOWN_SIG_JSON = "json-roundtrip-drained-matrix-loses-shape"
+
+
+def plain(ops):
+    """the same operations without object reuse (every Current built afresh from its expression)"""
+    out = []
+    for o in ops:
+        oo, opts = split(o)
+        if oo[0] == "mutate":
+            continue
+        opts = {k: v for k, v in opts.items() if k not in ("use", "store")}
+        out.append(oo + ([opts] if opts else []))
+    return out
+
+
+def make_cases(ops, mode=None, shrink_ok=False):
+    """run one operation list (one or two interleaved networks) on the implementation; one case per network"""
     mode = mode or inplace_mode()
     obs = run_impl(ops)
-    inp = dict(ops=ops, mode=mode)
-    case = dict(input=inp, impl=obs, coq=case_coq(mode, ops, obs), ambiguous=False)
-    why = monitor(case)
-    nadds = sum(1 for o, b in zip(ops, obs) if o[0] in ("add", "update") and b.get("err") is None)
-    errs = sorted({b["err"] for b in obs if b.get("err")})
-    case["kind"] = "seq/%s" % ("+".join(e[:5] for e in errs) if errs else "clean")
-    case["nontrivial"] = nadds > 0
-    case["sig"] = ops
-    if why and shrink_ok:
-        # the property fails on the implementation: keep a minimised operation list for the replay file
-        try:
-            inp["shrunk_ops"] = shrink(ops, lambda cand: _fails(cand, mode))
-        except Exception:  # noqa
-            pass
-    return case
+    tags = sorted({split(o)[1].get("net", 0) for o in ops}) or [0]
+    cases = []
+    for tag in tags:
+        po, pb = project(ops, obs, tag)
+        inp = dict(ops=po, mode=mode)
+        if len(tags) > 1 or len(po) != len(ops):
+            inp["full_ops"] = ops
+            inp["net"] = tag
+        case = dict(input=inp, impl=pb, coq=case_coq(mode, po, pb), ambiguous=False)
+        why = monitor(case)
+        nadds = sum(1 for o, b in zip(po, pb) if o[0] in ("add", "update") and b.get("err") is None)
+        errs = sorted({b["err"] for b in pb if b.get("err")})
+        fam = [f for f, on in (("2net", len(tags) > 1), ("json", any(o[0] == "json" for o in po)),
+                               ("reuse", any("use" in split(o)[1] for o in po))) if on]
+        case["kind"] = "seq%s/%s" % ("".join("+" + f for f in fam), "+".join(e[:5] for e in errs) if errs else "clean")
+        case["nontrivial"] = nadds > 0
+        known = bool(why) and why.startswith(KNOWN_SIG_JSON)
+        case["sig"] = KNOWN_SIG_JSON if known else po
+        if why and not known and shrink_ok:
+            # the property fails on the implementation: keep a minimised operation list for the replay file
+            try:
+                base = plain(ops)
+                if _fails(base, mode):
+                    inp["shrunk_ops"] = shrink(base, lambda cand: _fails(cand, mode))
+            except Exception:  # noqa
+                pass
+        cases.append(case)
+    return cases
+
+
+def make_case(ops, mode=None, shrink_ok=False):
+    return make_cases(ops, mode, shrink_ok)[0]
+
+
+def monitor_all(ops, mode):
+    """first property violation (not of the known class) on any of the networks driven by `ops`"""
+    obs = run_impl(ops)
+    for tag in sorted({split(o)[1].get("net", 0) for o in ops}) or [0]:
+        po, pb = project(ops, obs, tag)
+        r = monitor(dict(input=dict(ops=po, mode=mode), impl=pb))
+        if r and not r.startswith(KNOWN_SIG_JSON):
+            return r
+    return None
 
 
 def _fails(ops, mode):
-    r = monitor(dict(input=dict(ops=ops, mode=mode), impl=run_impl(ops)))
-    return bool(r)
+    return bool(monitor_all(ops, mode))
+
+
+def hashseed_check(op_lists):
+    """re-run the operation lists in a second process with another PYTHONHASHSEED; returns {index: message}"""
+    import json, os, subprocess, sys, tempfile
+    from harness.core import ROOT, REPO, jsonable
+    if not op_lists:
+        return {}
+    with tempfile.NamedTemporaryFile("w", suffix=".json", delete=False) as f:
+        json.dump(op_lists, f)
+        path = f.name
+    code = ("import json,sys,warnings; warnings.filterwarnings('ignore'); from harness import c12, core; "
+            "ops=json.load(open(sys.argv[1])); "
+            "print(json.dumps([json.dumps(c12.run_impl(o), sort_keys=True, default=core.jsonable) for o in ops]))")
+    env = dict(os.environ, PYTHONHASHSEED="4242", PYTHONPATH="%s:%s" % (REPO, ROOT), PYTHONWARNINGS="ignore")
+    try:
+        p = subprocess.run([sys.executable, "-c", code, path], cwd=ROOT, env=env, stdout=subprocess.PIPE,
+                           stderr=subprocess.PIPE, text=True, timeout=300)
+        theirs = json.loads(p.stdout.strip().split("\n")[-1])
+    except Exception as e:  # noqa
+        return {0: "second process (PYTHONHASHSEED=4242) could not be run: %s" % type(e).__name__}
+    finally:
+        os.unlink(path)
+    bad = {}
+    for i, ops in enumerate(op_lists):
+        # ops went through JSON in the child: do the same here so that both sides see identical inputs
+        mine = json.dumps(run_impl(json.loads(json.dumps(ops))), sort_keys=True, default=jsonable)
+        if mine != theirs[i]:
+            bad[i] = "the same operation list gives different observations in a process with another PYTHONHASHSEED"
+    return bad
 
 
 def corpus():
@@ -575,16 +940,25 @@ def corpus():
 
 
 def gen_cases(rng, n, tier):
+    """n = budget of Coq cases; about a quarter of it goes to pairs of interleaved networks"""
     mode = inplace_mode()
     out, shrunk = [], 0
     for ops in corpus()[1]:
-        c = make_case(ops, mode)
-        c["kind"] = "corpus/" + c["kind"]
-        out.append(c)
-    for _ in range(n):
-        c = make_case(gen_ops(rng), mode, shrink_ok=shrunk < 1)
-        shrunk += 1 if "shrunk_ops" in c["input"] else 0
-        out.append(c)
+        for c in make_cases(ops, mode):
+            c["kind"] = "corpus/" + c["kind"]
+            out.append(c)
+    first = []
+    while len(out) < n + len(corpus()[1]):
+        ops = gen_ops2(rng) if rng.random() < 0.14 else gen_ops(rng)
+        cs = make_cases(ops, mode, shrink_ok=shrunk < 1)
+        shrunk += sum(1 for c in cs if "shrunk_ops" in c["input"])
+        if len(first) < (12 if tier == "quick" else 40):
+            first.append((ops, cs))
+        out.extend(cs)
+    bad = hashseed_check([ops for ops, _ in first])
+    for i, msg in bad.items():
+        first[i][1][0]["impl"].append(dict(kind="hashseed", msg=msg))
+        first[i][1][0]["input"]["ops"] = first[i][1][0]["input"]["ops"]   # observation only; the Coq term is unchanged
     return out
 
 
@@ -592,7 +966,7 @@ def gen_cases(rng, n, tier):
 # second stream: the algebra alone
 # ---------------------------------------------------------------------------------------------
 ALG_HEADER = CORR_HEADER
-ALG_N = {"quick": 600, "thorough": 10000}
+ALG_N = {"quick": 500, "thorough": 10000}
 
 
 def make_alg_case(e, mode):
@@ -668,6 +1042,7 @@ class Ref:
     def __init__(self):
         self.stations, self.ever, self.live = [], False, []
         self.angle = {}          # station -> angle given at its last successful registration
+        self.volt = {}
 
     def names(self):
         return [x[0] for x in self.live]
@@ -684,6 +1059,60 @@ class Ref:
         return False
 
 
+def check_other_entry_points(ref, o, b):
+    """is_feasible (linear / phase-aware) and analysis.constraint_currents must report the same constraints, limits and
+    aggregate currents as constraint_current"""
+    _, rows, w, C, T = o
+    if T is not None or len(rows) != len(ref.stations):
+        return None
+    feas = b.get("feas")
+    if feas is not None:
+        if isinstance(feas, str):
+            return "is_feasible raised " + feas[4:]
+        for lin, got in ((True, feas[0]), (False, feas[1])):
+            verdict, margin_ok = True, True
+            for name, coeffs, limit in ref.live:
+                tol = max(F(1, 10**5), limit * F(1, 10**7))
+                for t in range(w):
+                    if lin:
+                        agg = abs(sum(abs(coeffs.get(s, F(0))) * F(rows[k][t]) for k, s in enumerate(ref.stations)))
+                    else:
+                        re = sum(float(coeffs.get(s, F(0))) * rows[k][t] * math.cos(math.radians(ref.angle[s]))
+                                 for k, s in enumerate(ref.stations))
+                        im = sum(float(coeffs.get(s, F(0))) * rows[k][t] * math.sin(math.radians(ref.angle[s]))
+                                 for k, s in enumerate(ref.stations))
+                        agg = F(math.hypot(re, im))
+                    gap = float(limit + tol) - float(agg)
+                    if abs(gap) < 1e-6:
+                        margin_ok = False
+                    if gap < 0:
+                        verdict = False
+            if margin_ok and bool(got) != verdict:
+                return "is_feasible(linear=%s) = %s although the live constraints and limits give %s" % (lin, got, verdict)
+    an = b.get("analysis")
+    if an is not None and b.get("err") is None:
+        if isinstance(an, str):
+            return "analysis.constraint_currents raised " + an[4:]
+        sel = [i for i, x in enumerate(ref.live) if C is None or x[0] in C]
+        want = {}
+        for i in sel:      # a python dict: of two constraints with the same name the later one is kept
+            want[ref.live[i][0]] = i
+        if [nm for nm, _, _ in an] != list(dict.fromkeys(ref.live[i][0] for i in sel)):
+            return "analysis.constraint_currents lists %r, live constraints requested are %r" % (
+                [nm for nm, _, _ in an], [ref.live[i][0] for i in sel])
+        for nm, re_row, im_row in an:
+            i = want[nm]
+            for t in range(w):
+                wre = sum(ref.live[i][1].get(s, F(0)) * F(rows[k][t]) * F(math.cos(math.radians(ref.angle[s])))
+                          for k, s in enumerate(ref.stations))
+                wim = sum(ref.live[i][1].get(s, F(0)) * F(rows[k][t]) * F(math.sin(math.radians(ref.angle[s])))
+                          for k, s in enumerate(ref.stations))
+                if not (close(wre, re_row[t]) and close(wim, im_row[t])):
+                    return "analysis.constraint_currents[%r][%d] = %r%+rj, the aggregate current of that constraint is %r%+rj" % (
+                        nm, t, re_row[t], im_row[t], float(wre), float(wim))
+    return None
+
+
 def monitor(case):
     if "expr" in case["input"]:
         impl = case["impl"]
@@ -692,9 +1121,24 @@ def monitor(case):
         return check_algebra(case["input"]["expr"], impl["items"])
     ops, obs = case["input"]["ops"], case["impl"]
     ref = Ref()
+    for b in obs[len(ops):]:
+        if b.get("kind") == "hashseed":
+            return b["msg"]
+    # findings that do not depend on the book-keeping: reported even when the case also shows a known finding
     for step_no, (o, b) in enumerate(zip(ops, obs)):
+        for key in ("args_changed", "held_changed"):
+            if b.get(key):
+                return "op %d %s: %s" % (step_no, split(o)[0][0], b[key])
+    for step_no, (o, b) in enumerate(zip(ops, obs)):
+        o, opts = split(o)
         k = o[0]
         where = "op %d %s: " % (step_no, k)
+        if b["kind"] == "snapdeg":
+            if ref.ever and not ref.live and k == "json":
+                return (KNOWN_SIG_JSON + ": " + where + "after to_json/from_json of a network whose constraints were all removed "
+                        "constraint_matrix has shape %s instead of (0, %d); constraints_as_df: %s" % (
+                            tuple(b.get("shape", [])), len(ref.stations), b["df_err"]))
+            return where + "constraint_matrix is not 2-dimensional (shape %s)" % (tuple(b.get("shape", [])),)
         if k == "register":
             if ref.ever:
                 if b["err"] != "EVSERegistrationError":
@@ -705,6 +1149,7 @@ def monitor(case):
                 if o[1] not in ref.stations:
                     ref.stations.append(o[1])
                 ref.angle[o[1]] = o[3]
+                ref.volt[o[1]] = o[2]
         elif k in ("add", "update"):
             items = b.get("cur")
             if items is None:
@@ -741,8 +1186,19 @@ def monitor(case):
             if len(b["mags"]) != len(ref.live) or any(F(m) != x[2] for m, x in zip(b["mags"], ref.live)):
                 return where + "magnitudes %r are not the limits %r of the live constraints" % (b["mags"], [float(x[2]) for x in ref.live])
         elif b["kind"] == "snap":
+            itf = b.get("iface")
+            if itf is not None:
+                if "err" in itf:
+                    return where + "Interface.get_constraints() raised " + itf["err"]
+                want_mat = b["mat"] if b["mat"] is not None else []
+                if itf["names"] != b["names"] or itf["stations"] != b["stations"] or itf["mags"] != b["mags"] \
+                        or itf["mat"] != want_mat:
+                    return where + "Interface.get_constraints() differs from the network's own arrays"
             if b["stations"] != ref.stations:
                 return where + "station list %r differs from the registered stations %r" % (b["stations"], ref.stations)
+            if b["volts"] != [float(ref.volt[x]) for x in ref.stations] or b["angles"] != [float(ref.angle[x]) for x in ref.stations]:
+                return where + "voltages %r / phase angles %r are not those given at the (last) registration of %r" % (
+                    b["volts"], b["angles"], ref.stations)
             if (b["mat"] is not None) != ref.ever:
                 return where + "constraint_matrix is %s although %s" % ("None" if b["mat"] is None else "set", "a constraint was accepted" if ref.ever else "no constraint was ever accepted")
             if b["names"] != ref.names() or b["df_idx"] != ref.names():
@@ -797,6 +1253,9 @@ def monitor(case):
                             r, c, val[r][c], i, ref.live[i][0], t, want)
                     if b["full"] is not None and not close(b["full"][i][t], val[r][c]):
                         return where + "subset result [%d][%d] differs from the full result [%d][%d]" % (r, c, i, t)
+            r = check_other_entry_points(ref, o, b)
+            if r:
+                return where + r
         elif b["kind"] == "queryp":
             # the default, phase-aware query: sum_k coeff_i(s_k) * X[k][t] * exp(j*angle(s_k))
             _, rows, w, C, T = o
@@ -832,6 +1291,9 @@ def monitor(case):
                         full = b["full_" + part]
                         if full is not None and not close(full[i][t], val[r][c]):
                             return where + "subset result (%s) [%d][%d] differs from the full result [%d][%d]" % (part, r, c, i, t)
+            r = check_other_entry_points(ref, o, b)
+            if r:
+                return where + r
     return None
 
 
@@ -863,12 +1325,11 @@ def search(rng, budget_s, broken):
 
     while time.time() - t0 < budget_s:
         for _ in range(40):
-            ops = gen_ops(rng)
+            ops = gen_ops2(rng) if rng.random() < 0.2 else gen_ops(rng)
             if fails(ops):
-                ops = shrink(ops, fails)
-                obs = run_impl(ops)
-                return dict(case=dict(ops=ops, mode=mode), impl=obs,
-                            why=monitor(dict(input=dict(ops=ops, mode=mode), impl=obs)))
+                if fails(plain(ops)):
+                    ops = shrink(plain(ops), fails)
+                return dict(case=dict(ops=ops, full_ops=ops, mode=mode), impl=run_impl(ops), why=monitor_all(ops, mode))
         for _ in range(200):
             sts = rng.sample(STATION_POOL, rng.randint(1, 8))
             c = make_alg_case(rand_expr(rng, sts, rng.randint(1, 4)), mode)
@@ -883,17 +1344,24 @@ def replay(w):
     if "expr" in inp:
         c = make_alg_case(inp["expr"], inplace_mode())
         return monitor(c)
-    ops = inp.get("shrunk_ops") or inp["ops"]
-    obs = run_impl(ops)
-    return monitor(dict(input=dict(ops=ops, mode=inplace_mode()), impl=obs))
+    ops = inp.get("shrunk_ops") or inp.get("full_ops") or inp["ops"]
+    return monitor_all(ops, inplace_mode())
 
 
 def replay_known(entry):
     """re-run the witness of an open finding on the implementation; returns what still fails (or None).
-    C12 has no open finding at present; an entry with an `expr` or `ops` witness is replayed with the monitor."""
+    An entry with an `expr` or `ops` witness is replayed with the monitor (which also reports the known class)."""
     w = entry.get("witness", {})
     if "expr" in w:
         return monitor(make_alg_case(w["expr"], inplace_mode()))
     if "ops" in w:
-        return replay(dict(case=dict(ops=w["ops"])))
+        obs = run_impl(w["ops"])
+        return monitor(dict(input=dict(ops=w["ops"], mode=inplace_mode()), impl=obs))
     return "not re-checked"
+
+
+# the _refuted theorem is compiled only while the open finding still reproduces on the tree under test
+try:
+    EXTRA_PROP_FILES = ["coq/Props/C12_findings.v"] if json_lossy() else []
+except Exception:  # noqa
+    EXTRA_PROP_FILES = []
